@@ -53,18 +53,27 @@ def r7_expressions_survive(ctx):
     from ..guards import conditions_at
     fitm = ctx.repo.mod("fit")
     n = 0
+    from ..symres import Resolver
     for q, fn in fitm.funcs.items():
         if not q.startswith("IndentationFitter."):
             continue
+        R_ = None
         for node in walk_no_nested(fn, False):
             tgt = None
             if isinstance(node, ast.Call) and isinstance(
-                    node.func, ast.Attribute) and node.func.attr == "set" \
-                    and isinstance(node.func.value, ast.Subscript):
+                    node.func, ast.Attribute) and node.func.attr == "set":
+                recv = node.func.value
+                if isinstance(recv, ast.Name) and hasattr(recv, "_parent"):
+                    # a local alias of params[<key>]
+                    if R_ is None:
+                        R_ = Resolver(fn)
+                    rv = R_.reaching_value(recv)
+                    if isinstance(rv, ast.Subscript):
+                        recv = rv
                 sets_value = bool(node.args) or any(
                     k.arg == "value" for k in node.keywords)
-                if sets_value:
-                    tgt = node.func.value
+                if sets_value and isinstance(recv, ast.Subscript):
+                    tgt = recv
             elif isinstance(node, ast.Assign) and isinstance(
                     node.targets[0], ast.Attribute) and \
                     node.targets[0].attr == "value" and isinstance(
